@@ -1,5 +1,5 @@
 ---------------------------- MODULE Trace_Implicit ----------------------------
-(* C2S judge for C17.  Record: [id, rules, prefix, t, u, mt, mt2, mu, cmds]
+(* C2S judge for C17.  Record: [id, rules, prefix, t, u, mt, mt2, mu, cmds, independent (writing into one completed tree left the other completions alone)]
    mt = merge_dicts(t, implicit.config(t, rules)) as the code computed it, mt2 = the same applied to mt, mu likewise for u,
    cmds = command paths of the real patch from mt to mu over the shipped rulebook of that hardware.                              *)
 EXTENDS Implicit, TLC, Json, IOUtils
@@ -15,6 +15,7 @@ Verdict(r) ==
   IN IF ~SubT(r.t, r.mt) THEN "explicit-line-lost"
      ELSE IF Canon(r.mt) # Canon(want) THEN (IF SubT(r.mt, want) THEN "default-missing" ELSE "default-added-next-to-explicit-line")
      ELSE IF Canon(r.mt2) # Canon(r.mt) THEN "completion-not-idempotent"
+     ELSE IF ~r.independent THEN "completed-trees-share-parts"
      ELSE IF \E k \in DOMAIN r.cmds : r.cmds[k] \in onlyImplicit \/ Strip(r.prefix, r.cmds[k]) \in onlyImplicit
           THEN "command-for-a-default-absent-from-both"
      ELSE "ok"
